@@ -220,3 +220,10 @@ pub trait App: Default {
     /// View method is used by the Shell to request the current state of the user interface
     fn view(&self, model: &Self::Model) -> Self::ViewModel;
 }
+
+// so that code generated by crux_macros (`::crux_core::...`) resolves inside this crate's harnesses
+#[cfg(kani)]
+extern crate self as crux_core;
+#[cfg(kani)]
+#[path = "/verif/kani/crux_core.rs"]
+mod verif_kani;
